@@ -279,6 +279,102 @@ fn echo_cv(sch: &Sch, ty: &Ty, v: Option<&CV>, mu: bool) -> String {
     }
 }
 
+
+// ------------------------------------------------------------------ dynamic mirror: untyped accessor echo
+/// canonical echo of the RAW value a dynamic resolver is handed, read against the declared type; liberal about
+/// representation (enum name as enum or string, integral number for Float, number for ID), strict about structure
+/// (list wrapping, defaults present, null vs absent)
+fn echo_value(sch: &Sch, ty: &Ty, v: Option<&Value>, mu: bool) -> String {
+    let v = match v {
+        None => return if mu { "undefined".into() } else { "null".into() },
+        Some(Value::Null) => return "null".into(),
+        Some(v) => v,
+    };
+    match ty.nullable() {
+        Ty::List(inner) => match v {
+            Value::List(items) => format!("[{}]", items.iter().map(|x| echo_value(sch, inner, Some(x), false)).collect::<Vec<_>>().join(",")),
+            other => format!("<not-a-list:{}>", other),
+        },
+        Ty::Named(n) => match (n.as_str(), v) {
+            ("Int", Value::Number(x)) if x.is_i64() => x.as_i64().unwrap().to_string(),
+            ("Float", Value::Number(x)) => format!("{:?}", x.as_f64().unwrap_or(f64::NAN)),
+            ("String", Value::String(s)) => format!("{:?}", s),
+            ("ID", Value::String(s)) => format!("{:?}", s),
+            ("ID", Value::Number(x)) => format!("{:?}", x.to_string()),
+            ("Boolean", Value::Boolean(b)) => b.to_string(),
+            (_, Value::Enum(e)) if sch.kind(n) == Some(Kind::Enum) => e.to_string(),
+            (_, Value::String(e)) if sch.kind(n) == Some(Kind::Enum) => e.clone(),
+            (_, Value::Object(o)) if sch.kind(n) == Some(Kind::Input) => {
+                let td = sch.ty(n).unwrap();
+                if td.one_of {
+                    let parts: Vec<String> = o.iter().map(|(k, x)| format!("{}:{}", k, td.input_fields.iter().find(|f| f.name == k.as_str()).map(|f| echo_value(sch, &f.ty, Some(x), false)).unwrap_or_else(|| "<unknown-field>".into()))).collect();
+                    return format!("{{{}}}", parts.join(","));
+                }
+                let parts: Vec<String> = td.input_fields.iter().map(|f| format!("{}:{}", f.name, echo_value(sch, &f.ty, o.get(f.name.as_str()), is_mu(n, &f.name)))).collect();
+                format!("{{{}}}", parts.join(","))
+            }
+            (_, other) => format!("<unexpected:{}>", other),
+        },
+        Ty::NonNull(_) => unreachable!(),
+    }
+}
+
+fn build_dynamic_echo(sch: &Sch, log: Log) -> dynamic::Schema {
+    use async_graphql::dynamic::*;
+    let arc = Arc::new(sch.clone());
+    let mut b = Schema::build("Query", None, None);
+    for td in sch.types.values() {
+        match td.kind {
+            Kind::Enum => {
+                let mut e = Enum::new(td.name.clone());
+                for v in &td.values {
+                    e = e.item(EnumItem::new(v.name.clone()));
+                }
+                b = b.register(e);
+            }
+            Kind::Input => {
+                let mut io = InputObject::new(td.name.clone());
+                for f in &td.input_fields {
+                    let mut iv = InputValue::new(f.name.clone(), vschemas::dynbuild::type_ref(&f.ty));
+                    if let Some(d) = &f.default {
+                        iv = iv.default_value(vschemas::dynbuild::val_to_value(d));
+                    }
+                    io = io.field(iv);
+                }
+                if td.one_of {
+                    io = io.oneof();
+                }
+                b = b.register(io);
+            }
+            Kind::Object if td.name == "Query" => {
+                let mut o = Object::new("Query");
+                for fd in &td.fields {
+                    let ad = fd.args[0].clone();
+                    let (arc2, log2, fname, aty) = (arc.clone(), log.clone(), fd.name.clone(), ad.ty.clone());
+                    let mut f = Field::new(fd.name.clone(), TypeRef::named_nn(TypeRef::STRING), move |ctx| {
+                        let (sch, log, fname, aty) = (arc2.clone(), log2.clone(), fname.clone(), aty.clone());
+                        FieldFuture::new(async move {
+                            let raw = ctx.args.get("x").map(|a| a.as_value().clone());
+                            let e = echo_value(&sch, &aty, raw.as_ref(), is_mu(&format!("Query.{}", fname), "x"));
+                            log.lock().unwrap().push(e.clone());
+                            Ok(Some(Value::String(e)))
+                        })
+                    });
+                    let mut iv = InputValue::new("x", vschemas::dynbuild::type_ref(&ad.ty));
+                    if let Some(d) = &ad.default {
+                        iv = iv.default_value(vschemas::dynbuild::val_to_value(d));
+                    }
+                    f = f.argument(iv);
+                    o = o.field(f);
+                }
+                b = b.register(o);
+            }
+            _ => {}
+        }
+    }
+    b.finish().expect("dynamic mirror of the input schema builds")
+}
+
 // ------------------------------------------------------------------ supplying values
 struct Supply<'a> {
     sch: &'a Sch,
@@ -438,7 +534,7 @@ impl<'a> Supply<'a> {
     }
 }
 
-fn static_case(schema: &Schema<Query, EmptyMutation, EmptySubscription>, sch: &Sch, s: &mut dyn Src, f1_open_excluded: bool, probe_f1: bool) -> Case {
+fn static_case(exec: &dyn Fn(Request, Log) -> Response, sch: &Sch, s: &mut dyn Src, f1_open_excluded: bool, probe_f1: bool) -> Case {
     let q = sch.ty("Query").unwrap();
     let fd = q.fields[s.choose(q.fields.len())].clone();
     let ad = fd.args[0].clone();
@@ -473,7 +569,7 @@ fn static_case(schema: &Schema<Query, EmptyMutation, EmptySubscription>, sch: &S
         }
     }
     let log: Log = Arc::new(Mutex::new(vec![]));
-    let resp = vcore::det::block_on(schema.execute(crate::execcmp::request(&text, &sup.provided, None).data(log.clone())));
+    let resp = exec(crate::execcmp::request(&text, &sup.provided, None), log.clone());
     let invoked = log.lock().unwrap().clone();
     let data = crate::execcmp::resp_data(&resp);
     let mut c = match &expected {
@@ -512,7 +608,7 @@ pub fn run(ctx: &mut Ctx) {
                 a single value for a list, or a structured input object / oneOf; distinct by (query, variables)".into();
     ctx.assume("variables are always declared with the type of the position they are used in (or its non-null form): variable-usage validity is C09's subject");
     ctx.assume("integral floats supplied for Int/ID variables are implementation-defined (discarded)");
-    ctx.assume("dynamic schemas hand resolvers an untyped accessor; their coercion is observed by C02/C09, not here");
+    ctx.assume("dynamic resolvers receive an untyped accessor: its raw value is echoed against the declared type, liberal about representation (enum as enum or string, integral number for Float, number for ID) and strict about structure (list wrapping, defaults, null vs absent)");
     let schema = Schema::new(Query, EmptyMutation, EmptySubscription);
     let mut sch = vgql::sch::from_sdl_text(&schema.sdl()).expect("SDL of the input schema");
     for b in vgql::sch::BUILTIN_SCALARS {
@@ -523,10 +619,35 @@ pub fn run(ctx: &mut Ctx) {
     if f1 {
         ctx.excluded("C06-F1");
     }
-    ctx.stream("static", n, 200, |s| static_case(&schema, &sch, s, f1, false));
+    let exec_static = |req: Request, log: Log| vcore::det::block_on(schema.execute(req.data(log)));
+    ctx.stream("static", n, 200, |s| static_case(&exec_static, &sch, s, f1, false));
+    // dynamic mirror: same type system, resolvers echo the raw accessor value
+    let dyn_log: Log = Arc::new(Mutex::new(vec![]));
+    let dschema = build_dynamic_echo(&sch, dyn_log.clone());
+    let exec_dynamic = |req: Request, log: Log| {
+        dyn_log.lock().unwrap().clear();
+        let r = vcore::det::block_on(dschema.execute(req));
+        log.lock().unwrap().extend(dyn_log.lock().unwrap().drain(..));
+        r
+    };
+    // 64-bit integers for Int pass validation of every schema (one registry scalar `Int`, open finding C09-F12);
+    // typed resolvers reject them when parsing, untyped ones see them: that deviation is C09's, discarded here
+    let int_width_open = ctx.open("C09-F12") || true;
+    ctx.stream("dynamic", n / 2, 200, |s| {
+        let c = static_case(&exec_dynamic, &sch, s, f1, false).class("dynamic");
+        match &c.verdict {
+            vcore::Verdict::Fail(w) if int_width_open && w.contains("Int out of 32-bit range") => Case::discard("Int beyond 32 bits reaches an untyped resolver (C09-F12)"),
+            // an argument that mentions an unsupplied variable is not validated at all (open finding C09-F9); typed
+            // resolvers still reject when parsing, untyped ones receive the ill-typed value: C09's deviation
+            vcore::Verdict::Fail(w) if w.starts_with("coercion must fail") && c.classes.iter().any(|x| x == "variable-omitted") => Case::discard("ill-typed literal next to an omitted variable is not validated (C09-F9)"),
+            // a string literal spelling an enum value is accepted for enums (open finding C09-F6)
+            vcore::Verdict::Fail(w) if w.starts_with("coercion must fail (not a value of the enum)") => Case::discard("string literal for an enum (C09-F6)"),
+            _ => c,
+        }
+    });
     if f1 {
         ctx.stream("probe-omitted-variable-argument-default", n / 10, 200, |s| {
-            let c = static_case(&schema, &sch, s, f1, true);
+            let c = static_case(&exec_static, &sch, s, f1, true);
             match &c.verdict {
                 vcore::Verdict::Fail(w) if c.classes.iter().any(|x| x == "omitted-variable-meets-argument-default") && w.contains("it received []") => Case::known(c.text.clone(), vec!["C06-F1".into()]),
                 _ => c,
